@@ -369,12 +369,13 @@ PROPS = {
         'technique': 'type-graph reachability + per-handler effect summary (exactly-once emission)',
     },
     'C18': {
-        'rules': [rule('X9'), rule('X4'), rule('X13', keep=['re-preprocess']), rule('G22')],
+        'rules': [rule('X9'), rule('X4'), rule('X13', keep=['re-preprocess']), rule('G22'), rule('X18', keep=['comment-char-kept'])],
         'explanation': 'strip_comments reaches every nested run unchanged (X9: includes, macro expansion, `include via macro); under the flag '
                        'the only arm whose behaviour changes is the Comment arm, which emits a separator in place of the comment so '
                        'that neighbouring tokens are not joined; no arm that emits non-comment text is disabled by the flag; whole-node '
-                       'pushes that can still contain a comment are reported (X4c, X4a).',
-        'decided': 'X9 X4',
+                       'pushes that can still contain a comment are reported (X4c, X4a). A one-line comment of a macro body never reaches the '
+                       'expansion (X18 `comment-char-kept`): there it would run to the end of the line of the usage, which the two modes treat differently.',
+        'decided': 'X9 X4 X18(comment-char-kept)',
         'not_decided': 'equality of the token sequences of two runs (relation between executions)',
         'assumptions': [],
         'level_text': 'Flag-threading lint + emission-class analysis under strip mode.',
